@@ -666,17 +666,81 @@ Proof.
   - rewrite cfind_cupd_other by exact Hne. reflexivity.
 Qed.
 
+Lemma cfind_cset_same h c l : cfind h (cset h c l) = Some c.
+Proof.
+  induction l as [|[h' c'] r IH]; cbn [cfind cset]; [rewrite N.eqb_refl; reflexivity|].
+  destruct (N.eqb h h') eqn:Eq; cbn [cfind]; rewrite Eq; [reflexivity|exact IH].
+Qed.
+
+Lemma cfind_cset_other h h' c l : h <> h' -> cfind h' (cset h c l) = cfind h' l.
+Proof.
+  intros Hne. assert (Hf : N.eqb h' h = false) by (apply N.eqb_neq; congruence).
+  induction l as [|[h2 c2] r IH]; cbn [cfind cset]; [rewrite Hf; reflexivity|].
+  destruct (N.eqb h h2) eqn:Eq; cbn [cfind].
+  - apply N.eqb_eq in Eq. subst h2. rewrite Hf. reflexivity.
+  - rewrite IH. reflexivity.
+Qed.
+
+Lemma cfind_cdel_same h l : cfind h (cdel h l) = None.
+Proof.
+  unfold cdel. induction l as [|[h' c] r IH]; cbn [filter fst cfind]; [reflexivity|].
+  destruct (N.eqb h h') eqn:Eq; cbn [negb]; [exact IH|]. cbn [cfind]. rewrite Eq. exact IH.
+Qed.
+
+Lemma cfind_cdel_other h h' l : h <> h' -> cfind h' (cdel h l) = cfind h' l.
+Proof.
+  intros Hne. unfold cdel. induction l as [|[h2 c] r IH]; cbn [filter fst cfind]; [reflexivity|].
+  destruct (N.eqb h h2) eqn:Eq; cbn [negb].
+  - apply N.eqb_eq in Eq. subst h2.
+    replace (N.eqb h' h) with false by (symmetry; apply N.eqb_neq; congruence). exact IH.
+  - cbn [cfind]. rewrite IH. reflexivity.
+Qed.
+
+Lemma mfind_mset_same h m l : mfind h (mset h m l) = Some m.
+Proof.
+  induction l as [|[h' m'] r IH]; cbn [mfind mset]; [rewrite N.eqb_refl; reflexivity|].
+  destruct (N.eqb h h') eqn:Eq; cbn [mfind]; rewrite Eq; [reflexivity|exact IH].
+Qed.
+
+Lemma mfind_mset_other h h' m l : h <> h' -> mfind h' (mset h m l) = mfind h' l.
+Proof.
+  intros Hne. assert (Hf : N.eqb h' h = false) by (apply N.eqb_neq; congruence).
+  induction l as [|[h2 m2] r IH]; cbn [mfind mset]; [rewrite Hf; reflexivity|].
+  destruct (N.eqb h h2) eqn:Eq; cbn [mfind].
+  - apply N.eqb_eq in Eq. subst h2. rewrite Hf. reflexivity.
+  - rewrite IH. reflexivity.
+Qed.
+
+Lemma mfind_mdel_same h l : mfind h (mdel h l) = None.
+Proof.
+  unfold mdel. induction l as [|[h' c] r IH]; cbn [filter fst mfind]; [reflexivity|].
+  destruct (N.eqb h h') eqn:Eq; cbn [negb]; [exact IH|]. cbn [mfind]. rewrite Eq. exact IH.
+Qed.
+
+Lemma mfind_mdel_other h h' l : h <> h' -> mfind h' (mdel h l) = mfind h' l.
+Proof.
+  intros Hne. unfold mdel. induction l as [|[h2 c] r IH]; cbn [filter fst mfind]; [reflexivity|].
+  destruct (N.eqb h h2) eqn:Eq; cbn [negb].
+  - apply N.eqb_eq in Eq. subst h2.
+    replace (N.eqb h' h) with false by (symmetry; apply N.eqb_neq; congruence). exact IH.
+  - cbn [mfind]. rewrite IH. reflexivity.
+Qed.
+
 Section StackProofs.
   Variable E : bytes -> bytes -> bytes.
 
+  Notation ll_step := (ll_step E false).
+  Notation ll_run := (ll_run E false).
+  Notation outs_of := (outs_of E false).
+
   Lemma ll_run_app st a b :
-    ll_run E st (a ++ b) =
-    let '(st1, o1) := ll_run E st a in let '(st2, o2) := ll_run E st1 b in (st2, o1 ++ o2).
+    ll_run st (a ++ b) =
+    let '(st1, o1) := ll_run st a in let '(st2, o2) := ll_run st1 b in (st2, o1 ++ o2).
   Proof.
-    revert st. induction a as [|ev a IH]; intros st; cbn [app ll_run].
-    - destruct (ll_run E st b). reflexivity.
-    - destruct (ll_step E st ev) as [st1 o]. rewrite IH.
-      destruct (ll_run E st1 a) as [st2 o1]. destruct (ll_run E st2 b) as [st3 o2]. reflexivity.
+    revert st. induction a as [|ev a IH]; intros st; cbn [app Model.ll_run].
+    - destruct (ll_run st b). reflexivity.
+    - destruct (ll_step st ev) as [st1 o]. rewrite IH.
+      destruct (ll_run st1 a) as [st2 o1]. destruct (ll_run st2 b) as [st3 o2]. reflexivity.
   Qed.
 
   Lemma mk_manager_wf p : proc_wfb p = true ->
@@ -690,25 +754,24 @@ Section StackProofs.
       given exactly this procedure's material, and registration of handles is preserved *)
   Lemma proc_run p st :
     proc_wfb p = true -> registered (p_h p) st = true ->
-    exists st', fst (ll_run E st (proc_events p)) = st' /\
-                set_enc_only (snd (ll_run E st (proc_events p))) = [proc_expected E p] /\
+    exists st', fst (ll_run st (proc_events p)) = st' /\
+                set_enc_only (snd (ll_run st (proc_events p))) = [proc_expected E p] /\
                 (forall h, registered h st' = registered h st).
   Proof.
     intros Hwf Hreg. destruct (mk_manager_wf p Hwf) as [m Hm].
     unfold registered in Hreg. destruct (cfind (p_h p) (conns st)) as [c|] eqn:Hc; [|discriminate].
     unfold proc_events. destruct (p_central p).
-    - (* central: register key, start_encryption, LL_ENC_RSP, LL_START_ENC_REQ *)
-      cbn [ll_run ll_step with_conns conns llcm].
+    - cbn [Model.ll_run Model.ll_step with_conns conns llcm mkey].
       rewrite cfind_cupd_same, Hc. cbn [option_map set_key ckey].
       cbn [with_conns conns llcm].
       rewrite cfind_cupd_same, cfind_cupd_same, Hc. cbn [option_map set_key set_proc ckey cskd civ].
       fold (proc_mat p). rewrite Hm. cbn [conns llcm].
       rewrite cfind_cupd_same, cfind_cupd_same, Hc. cbn [option_map set_key set_proc crand cediv].
+      rewrite mfind_mset_same.
       eexists. split; [reflexivity|]. split; [reflexivity|].
       intros h. unfold registered. cbn [fst conns].
       rewrite !cfind_cupd_some. reflexivity.
-    - (* peripheral: register key, LL_ENC_REQ *)
-      cbn [ll_run ll_step with_conns conns llcm].
+    - cbn [Model.ll_run Model.ll_step with_conns conns llcm mkey].
       rewrite cfind_cupd_same, Hc. cbn [option_map set_key ckey].
       fold (proc_mat p). rewrite Hm.
       eexists. split; [reflexivity|]. split; [reflexivity|].
@@ -716,21 +779,98 @@ Section StackProofs.
       rewrite !cfind_cupd_some. reflexivity.
   Qed.
 
-  (** all sequences of procedures (same or different handles, both roles, any material):
-      the k-th set_encryption carries the k-th procedure's own material *)
+  (** all sequences of procedures run one after the other *)
   Lemma stack_procedures : forall (procs : list proc) (st : lls),
     Forall (fun p => proc_wfb p = true /\ registered (p_h p) st = true) procs ->
-    set_enc_only (snd (ll_run E st (concat (map proc_events procs)))) = map (proc_expected E) procs.
+    set_enc_only (snd (ll_run st (concat (map proc_events procs)))) = map (proc_expected E) procs.
   Proof.
     induction procs as [|p r IH]; intros st Hall; [reflexivity|].
     inversion Hall as [|? ? [Hwf Hreg] Hrest]; subst.
     cbn [map concat]. rewrite ll_run_app.
     destruct (proc_run p st Hwf Hreg) as (st' & Hst & Hout & Hpres).
-    destruct (ll_run E st (proc_events p)) as [st1 o1] eqn:R1. cbn [fst snd] in Hst, Hout. subst st1.
-    destruct (ll_run E st' (concat (map proc_events r))) as [st2 o2] eqn:R2.
+    destruct (ll_run st (proc_events p)) as [st1 o1] eqn:R1. cbn [fst snd] in Hst, Hout. subst st1.
+    destruct (ll_run st' (concat (map proc_events r))) as [st2 o2] eqn:R2.
     cbn [snd]. unfold set_enc_only in *. rewrite filter_app, Hout. cbn [app]. f_equal.
     specialize (IH st'). rewrite R2 in IH. cbn [snd] in IH. apply IH.
     eapply Forall_impl; [|exact Hrest]. intros q [Hq1 Hq2]. split; [exact Hq1|]. rewrite Hpres. exact Hq2.
+  Qed.
+
+  (** ** what happens on one handle depends only on the events of that handle *)
+  Definition agree (h : N) (st st' : lls) : Prop :=
+    cfind h (conns st) = cfind h (conns st') /\ mfind h (llcm st) = mfind h (llcm st').
+
+  Lemma agree_refl h st : agree h st st.
+  Proof. split; reflexivity. Qed.
+
+  Lemma agree_trans_l h a b c : agree h a b -> agree h a c -> agree h c b.
+  Proof. intros [H1 H2] [H3 H4]. split; congruence. Qed.
+
+  Ltac break_match :=
+    match goal with
+    | |- context [match ?x with _ => _ end] => destruct x eqn:?
+    end.
+
+  Lemma step_same_handle h st st' ev :
+    agree h st st' -> ev_handle ev = h ->
+    snd (ll_step st ev) = snd (ll_step st' ev) /\ agree h (fst (ll_step st ev)) (fst (ll_step st' ev)).
+  Proof.
+    intros [Hc Hm] Hh. unfold agree.
+    destruct ev; cbn [ev_handle] in Hh; subst h0; cbn [Model.ll_step mkey]; rewrite ?Hc, ?Hm;
+      repeat break_match; cbn [fst snd with_conns conns llcm];
+      rewrite ?cfind_cupd_same, ?cfind_cset_same, ?cfind_cdel_same, ?mfind_mset_same, ?mfind_mdel_same, ?Hc, ?Hm;
+      repeat split; try reflexivity; try congruence.
+  Qed.
+
+  Lemma step_other_handle h st ev : ev_handle ev <> h -> agree h st (fst (ll_step st ev)).
+  Proof.
+    intros Hne. unfold agree.
+    destruct ev; cbn [ev_handle] in Hne; cbn [Model.ll_step mkey];
+      repeat break_match; cbn [fst snd with_conns conns llcm];
+      rewrite ?cfind_cupd_other, ?cfind_cset_other, ?cfind_cdel_other, ?mfind_mset_other, ?mfind_mdel_other by exact Hne;
+      split; reflexivity.
+  Qed.
+
+  Lemma handle_independence h : forall evs st st',
+    agree h st st' -> outs_of h st evs = snd (ll_run st' (on_handle h evs)).
+  Proof.
+    induction evs as [|ev r IH]; intros st st' Ha; [reflexivity|].
+    cbn [Model.outs_of on_handle filter].
+    destruct (ll_step st ev) as [st1 o] eqn:S1.
+    destruct (N.eqb (ev_handle ev) h) eqn:Eq.
+    - apply N.eqb_eq in Eq.
+      destruct (step_same_handle h st st' ev Ha Eq) as [Ho Hag]. rewrite S1 in Ho, Hag. cbn [fst snd] in Ho, Hag.
+      cbn [Model.ll_run]. destruct (ll_step st' ev) as [st1' o'] eqn:S2. cbn [fst snd] in Ho, Hag. subst o'.
+      fold (on_handle h r). rewrite (IH st1 st1' Hag).
+      destruct (ll_run st1' (on_handle h r)). reflexivity.
+    - apply N.eqb_neq in Eq. fold (on_handle h r). apply IH.
+      pose proof (step_other_handle h st ev Eq) as H1. rewrite S1 in H1. cbn [fst] in H1.
+      eapply agree_trans_l; [exact Ha|exact H1].
+  Qed.
+
+  Lemma handle_independence_same h evs st : outs_of h st evs = snd (ll_run st (on_handle h evs)).
+  Proof. apply handle_independence. apply agree_refl. Qed.
+
+  (** ARBITRARY interleavings: whatever events of other handles (procedures, registrations,
+      disconnections, stray PDUs) are interleaved in whatever order, if the events of handle [h]
+      are the procedures [procs] run on it, the PHY is given, for [h], exactly their material *)
+  Lemma stack_interleavings h (procs : list proc) (evs : list levent) (st : lls) :
+    registered h st = true ->
+    Forall (fun p => proc_wfb p = true /\ p_h p = h) procs ->
+    on_handle h evs = concat (map proc_events procs) ->
+    set_enc_only (outs_of h st evs) = map (proc_expected E) procs.
+  Proof.
+    intros Hreg Hall Hev. rewrite (handle_independence h evs st st (agree_refl h st)), Hev.
+    apply stack_procedures. eapply Forall_impl; [|exact Hall].
+    intros p [Hw Hh]. split; [exact Hw|]. rewrite Hh. exact Hreg.
+  Qed.
+
+  (** a disconnection drops the manager: a reconnection reusing the handle cannot be given the
+      material of the previous connection *)
+  Lemma no_manager_after_disconnect h st :
+    snd (ll_run st [EDisc h; EConn h; EStartEncReq h]) = [LNone; LNone; LRaise AttributeError].
+  Proof.
+    cbn [Model.ll_run Model.ll_step with_conns conns llcm mkey].
+    rewrite cfind_cset_same, mfind_mdel_same. reflexivity.
   Qed.
 
   (** both sides of a procedure hand the same material to their PHY *)
@@ -739,7 +879,7 @@ Section StackProofs.
     p_central p = true -> p_central q = false ->
     p_h q = p_h p -> p_key q = p_key p -> p_rand q = p_rand p -> p_ediv q = p_ediv p ->
     p_skdm q = p_skdm p -> p_ivm q = p_ivm p -> p_skds q = p_skds p -> p_ivs q = p_ivs p ->
-    set_enc_only (snd (ll_run E st (proc_events p))) = set_enc_only (snd (ll_run E st' (proc_events q))).
+    set_enc_only (snd (ll_run st (proc_events p))) = set_enc_only (snd (ll_run st' (proc_events q))).
   Proof.
     intros Hwf Hr Hr' _ _ Hh Hk H1 H2 H3 H4 H5 H6.
     assert (Hwfq : proc_wfb q = true).
@@ -748,15 +888,47 @@ Section StackProofs.
     destruct (proc_run q st' Hwfq Hr') as (_ & _ & -> & _).
     unfold proc_expected, proc_mat. rewrite Hh, Hk, H1, H2, H3, H4, H5, H6. reflexivity.
   Qed.
+
+  (** the concrete interleaving of two central procedures on different handles *)
+  Lemma stack_interleaved st p q :
+    proc_wfb p = true -> proc_wfb q = true -> registered (p_h p) st = true -> registered (p_h q) st = true ->
+    p_h p <> p_h q ->
+    set_enc_only (snd (ll_run st (interleaved p q))) = [proc_expected E p; proc_expected E q].
+  Proof.
+    intros Hwp Hwq Hrp Hrq Hne.
+    assert (Hne' : p_h q <> p_h p) by congruence.
+    destruct (mk_manager_wf p Hwp) as [mp Hmp]. destruct (mk_manager_wf q Hwq) as [mq Hmq].
+    unfold registered in Hrp, Hrq.
+    destruct (cfind (p_h p) (conns st)) as [cp|] eqn:Hcp; [|discriminate].
+    destruct (cfind (p_h q) (conns st)) as [cq|] eqn:Hcq; [|discriminate].
+    unfold interleaved.
+    cbn [Model.ll_run Model.ll_step with_conns conns llcm mkey].
+    repeat (rewrite ?cfind_cupd_same, ?(cfind_cupd_other _ _ _ _ Hne), ?(cfind_cupd_other _ _ _ _ Hne'), ?Hcp, ?Hcq;
+            cbn [option_map set_key set_proc ckey cskd civ crand cediv with_conns conns llcm]).
+    fold (proc_mat p). rewrite Hmp. cbn [conns llcm].
+    repeat (rewrite ?cfind_cupd_same, ?(cfind_cupd_other _ _ _ _ Hne), ?(cfind_cupd_other _ _ _ _ Hne'), ?Hcp, ?Hcq;
+            cbn [option_map set_key set_proc ckey cskd civ crand cediv with_conns conns llcm]).
+    fold (proc_mat q). rewrite Hmq. cbn [conns llcm].
+    repeat (rewrite ?cfind_cupd_same, ?(cfind_cupd_other _ _ _ _ Hne), ?(cfind_cupd_other _ _ _ _ Hne'), ?Hcp, ?Hcq;
+            cbn [option_map set_key set_proc ckey cskd civ crand cediv with_conns conns llcm]).
+    rewrite (mfind_mset_other _ _ _ _ Hne'), mfind_mset_same. cbn [conns llcm].
+    repeat (rewrite ?cfind_cupd_same, ?(cfind_cupd_other _ _ _ _ Hne), ?(cfind_cupd_other _ _ _ _ Hne'), ?Hcp, ?Hcq;
+            cbn [option_map set_key set_proc ckey cskd civ crand cediv with_conns conns llcm]).
+    rewrite mfind_mset_same.
+    reflexivity.
+  Qed.
 End StackProofs.
 
-(** interleaved procedures on two handles: the faithful model (one shared manager) hands
-    handle 1 the material of handle 2 *)
-Lemma stack_interleaved_refuted : ~ stack_interleaved_statement.
+Lemma stack_interleaved_statement_holds : stack_interleaved_statement_for false.
+Proof. intros E _ st p q. apply stack_interleaved. Qed.
+
+(** the behaviour before the repair (one manager attribute shared by all handles) refutes it:
+    handle 1 was given the material of handle 2 *)
+Lemma stack_shared_manager_refuted : ~ stack_interleaved_statement_for true.
 Proof.
   intros H.
   specialize (H aes128_enc aes128_enc_length
-                {| conns := [(1%N, cstate0); (2%N, cstate0)]; llcm := None |}
+                {| conns := [(1%N, cstate0); (2%N, cstate0)]; llcm := [] |}
                 {| p_central := true; p_h := 1; p_key := fips197_B_key; p_rand := 0; p_ediv := 0;
                    p_skdm := 11; p_ivm := 22; p_skds := 33; p_ivs := 44 |}
                 {| p_central := true; p_h := 2; p_key := fips197_C1_key; p_rand := 5; p_ediv := 6;
